@@ -508,6 +508,7 @@ fn interface_def<'a>(input: &mut &'a [u8]) -> ModalResult<Interface<'a>, InputEr
             Error(Error<'a>),
         }
 
+        let checkpoint = *input;
         let result = alt((
             type_def.map(ParsedMember::Custom),
             method_def.map(ParsedMember::Method),
@@ -519,7 +520,12 @@ fn interface_def<'a>(input: &mut &'a [u8]) -> ModalResult<Interface<'a>, InputEr
             Ok(ParsedMember::Custom(custom_type)) => custom_types.push(custom_type),
             Ok(ParsedMember::Method(method)) => methods.push(method),
             Ok(ParsedMember::Error(error)) => errors.push(error),
-            Err(_) => break,
+            Err(_) => {
+                // Not a member: leave the text for the caller's "no input remains" check (the
+                // failed attempt may have consumed part of it).
+                *input = checkpoint;
+                break;
+            }
         }
     }
 
